@@ -36,9 +36,40 @@ BOUNDS = {"quick": dict(lengths=[0, 1, 3], depth=1), "thorough": dict(lengths=[0
 JOBS = {"quick": 14, "thorough": 16}
 
 
+def vec2arg():
+    """program taking ONE vector argument t = (t0, t1)"""
+    from ..grammar import Site, Static, mixp, _f
+
+    return Static(
+        "vec2arg",
+        1,
+        [
+            Site("a", "flip", lambda xp, args, env: (args[0][0],)),
+            Site("b", "flip", lambda xp, args, env: (mixp(xp, _f(xp, env["a"]), args[0][1]),)),
+        ],
+        lambda xp, args, env: _f(xp, env["a"]) + 2.0 * _f(xp, env["b"]) + args[0][1],
+        [(np.array([0.3, 0.6], dtype=np.float32),), (np.array([0.6, 0.45], dtype=np.float32),)],
+        unit=False,
+    )
+
+
+class VmapAxis1(Vmap):
+    """vmap along axis 1 of a (2, n) matrix argument (non-square: n = 3)"""
+
+    def __init__(self, n):
+        super().__init__(vec2arg(), n, (1,))
+        self.name = f"vmap[{n},(1,)](vec2arg)"
+
+    def arg_alphabet(self):
+        n = self.n
+        m1 = np.array([[0.3, 0.6, 0.45, 0.5][:n], [0.6, 0.45, 0.3, 0.7][:n]], dtype=np.float32)
+        m2 = np.array([[0.45, 0.3, 0.6, 0.2][:n], [0.3, 0.7, 0.45, 0.6][:n]], dtype=np.float32)
+        return [(m1,), (m2,)]
+
+
 def programs(tier):
     f = Flip()
-    out = []
+    out = [VmapAxis1(3)]
     ns = BOUNDS[tier]["lengths"]
     for n in ns:
         out.append(Vmap(f, n, 0))
